@@ -6,7 +6,7 @@ from autograd.extend import defjvp, defvjp
 from autograd.tracer import isbox
 
 from . import numpy_wrapper as anp
-from .numpy_vjps import match_complex
+from .numpy_vjps import match_complex, unbroadcast
 from .numpy_wrapper import wrap_namespace
 
 wrap_namespace(npla.__dict__, globals())
@@ -67,11 +67,16 @@ defvjp(pinv, grad_pinv)
 
 
 def grad_solve(argnum, ans, a, b):
-    updim = lambda x: x if x.ndim == a.ndim else x[..., None]
+    # a vector right-hand side gives a result with one dimension less than a; the
+    # batch dimensions of a and b broadcast, so each cotangent is reduced to its argument
+    vector_rhs = anp.ndim(ans) == anp.ndim(a) - 1
+    updim = lambda x: x[..., None] if vector_rhs else x
     if argnum == 0:
-        return lambda g: match_complex(a, -_dot(updim(solve(T(a), g)), T(updim(ans))))
+        return lambda g: unbroadcast(
+            match_complex(a, -_dot(updim(solve(T(a), g)), T(updim(ans)))), anp.metadata(a)
+        )
     else:
-        return lambda g: match_complex(b, solve(T(a), g))
+        return lambda g: unbroadcast(match_complex(b, solve(T(a), g)), anp.metadata(b))
 
 
 defvjp(solve, partial(grad_solve, 0), partial(grad_solve, 1))
